@@ -533,12 +533,41 @@ Theorem open_flags_append_is_std_append r t c cn :
   open_flags (mkopts r true t c cn O_APPEND) = std_open_flags r true true t c cn 0%N.
 Proof. destruct r, t, c, cn; cbn; intros H; try discriminate H; reflexivity. Qed.
 
+Lemma access_mode_err o :
+  (exists a, get_access_mode o = Rok a) \/
+  (get_access_mode o = Rerr E_INVALID_INPUT /\ oo_read o = false /\ oo_write o = false).
+Proof.
+  unfold get_access_mode. destruct (oo_read o), (oo_write o);
+    [left; eexists; reflexivity|left; eexists; reflexivity|left; eexists; reflexivity|].
+  right. repeat split.
+Qed.
+
+Lemma access_mode_ok o a :
+  get_access_mode o = Rok a -> oo_read o = true \/ oo_write o = true.
+Proof.
+  unfold get_access_mode. destruct (oo_read o), (oo_write o); intros H;
+    [left|left|right|discriminate H]; reflexivity.
+Qed.
+
+Lemma creation_mode_err o :
+  (exists c, get_creation_mode o = Rok c /\
+             (negb (oo_write o) && (oo_truncate o || oo_create o || oo_create_new o))%bool = false) \/
+  (get_creation_mode o = Rerr E_INVALID_INPUT /\
+   (negb (oo_write o) && (oo_truncate o || oo_create o || oo_create_new o))%bool = true).
+Proof.
+  unfold get_creation_mode.
+  destruct (negb (oo_write o) && (oo_truncate o || oo_create o || oo_create_new o))%bool.
+  - right. split; reflexivity.
+  - left. eexists. split; reflexivity.
+Qed.
+
 Theorem open_flags_error o :
   (exists fl, open_flags o = Rok fl) \/ open_flags o = Rerr E_INVALID_INPUT.
 Proof.
-  destruct o as [r w t c cn cu]. unfold open_flags, get_access_mode, get_creation_mode.
-  cbn [oo_read oo_write oo_truncate oo_create oo_create_new oo_custom].
-  destruct r, w, t, c, cn; cbn; try (right; reflexivity); left; eexists; reflexivity.
+  unfold open_flags.
+  destruct (access_mode_err o) as [[a EA]|[EA _]]; rewrite EA; [|right; reflexivity].
+  destruct (creation_mode_err o) as [[c [EC _]]|[EC _]]; rewrite EC;
+    [left; eexists; reflexivity|right; reflexivity].
 Qed.
 
 Theorem open_flags_invalid_iff o :
@@ -546,11 +575,17 @@ Theorem open_flags_invalid_iff o :
   (oo_read o = false /\ oo_write o = false) \/
   (oo_write o = false /\ (oo_truncate o || oo_create o || oo_create_new o) = true).
 Proof.
-  destruct o as [r w t c cn cu]. unfold open_flags, get_access_mode, get_creation_mode.
-  cbn [oo_read oo_write oo_truncate oo_create oo_create_new oo_custom].
-  destruct r, w, t, c, cn; cbn; split; intros H;
-    try discriminate H; try reflexivity; auto;
-    try (destruct H as [[H1 H2]|[H1 H2]]; discriminate).
+  unfold open_flags.
+  destruct (access_mode_err o) as [[a EA]|[EA [Hr Hw]]]; rewrite EA.
+  - destruct (creation_mode_err o) as [[c [EC Hc]]|[EC Hc]]; rewrite EC.
+    + split; [intros H; discriminate H|].
+      intros [[Hr Hw]|[Hw Ht]].
+      * destruct (access_mode_ok o a EA) as [H|H]; congruence.
+      * rewrite Hw, Ht in Hc. discriminate Hc.
+    + split; [|reflexivity]. intros _. right.
+      apply andb_true_iff in Hc. destruct Hc as [Hw Ht].
+      apply negb_true_iff in Hw. split; assumption.
+  - split; [|reflexivity]. intros _. left. split; assumption.
 Qed.
 
 (* what the flag word means to the kernel, for the two custom values in use *)
